@@ -4,8 +4,21 @@ namespace Utv.C09
 
 /-- an object that can be an argument after `_parse_arg`: None / typing aliases / literals have been replaced -/
 def Ty.parsed : Ty → Bool
-  | .noneV | .alias _ | .lit _ => false
+  | .noneV | .alias _ | .lit _ | .str _ | .tunion _ => false
   | _ => true
+
+/-- an operand whose parsed form does not depend on WHEN it is parsed: everything except the operands for which
+`Rule.annotate` creates a new class at each use (typing aliases, literals, typing.Union).  `None` and a forward
+reference by name are stable: they parse to `NoneType` / to a `ForwardRef` that compares equal by name. -/
+def Ty.stable : Ty → Bool
+  | .alias _ | .lit _ | .tunion _ => false
+  | _ => true
+
+theorem parseArg_stable {t : Ty} (h : t.stable = true) (u : Nat) : parseArg u t = parseArg 0 t := by
+  cases t <;> first | (cases h; done) | rfl
+
+theorem stable_of_parsed {t : Ty} (h : t.parsed = true) : t.stable = true := by
+  cases t <;> first | rfl | cases h
 
 theorem parseArg_parsed (u : Nat) (t : Ty) : (parseArg u t).parsed = true := by
   cases t <;> rfl
@@ -13,8 +26,8 @@ theorem parseArg_parsed (u : Nat) (t : Ty) : (parseArg u t).parsed = true := by
 theorem parseArg_of_parsed {u : Nat} {t : Ty} (h : t.parsed = true) : parseArg u t = t := by
   cases t <;> first | rfl | cases h
 
-theorem same_refl (t : Ty) : t.same t = true := by
-  cases t <;> simp [Ty.same]
+theorem same_refl (t : Ty) (h : t.parsed = true) : t.same t = true := by
+  cases t <;> first | (cases h; done) | simp [Ty.same]
 
 theorem parseArg_combinator (u : Nat) (t : Ty) : (parseArg u t).combinator = t.combinator := by
   cases t <;> rfl
@@ -168,7 +181,7 @@ theorem combine_cases (op : Comb) (u : Nat) (args : List Ty) (P : Ty → Prop)
 /-! ### `combine` on operands with a stable identity: index independence, append, monotonicity -/
 
 theorem combineLoop_index (op : Comb) (u : Nat) :
-    ∀ (args acc : List Ty) (i j : Nat), (∀ a ∈ args, a.parsed = true) →
+    ∀ (args acc : List Ty) (i j : Nat), (∀ a ∈ args, a.stable = true) →
       combineLoop op u args acc i = combineLoop op u args acc j := by
   intro args
   induction args with
@@ -176,9 +189,9 @@ theorem combineLoop_index (op : Comb) (u : Nat) :
   | cons a rest ih =>
     intro acc i j hp
     have ha := hp a List.mem_cons_self
-    have hr : ∀ x ∈ rest, x.parsed = true := fun x hx => hp x (List.mem_cons_of_mem _ hx)
-    simp only [combineLoop, parseArg_of_parsed ha]
-    rw [ih acc (i + 1) (j + 1) hr, ih (acc ++ [a]) (i + 1) (j + 1) hr]
+    have hr : ∀ x ∈ rest, x.stable = true := fun x hx => hp x (List.mem_cons_of_mem _ hx)
+    simp only [combineLoop, parseArg_stable ha (u + 1 + i), parseArg_stable ha (u + 1 + j)]
+    rw [ih acc (i + 1) (j + 1) hr, ih (acc ++ [parseArg 0 a]) (i + 1) (j + 1) hr]
 
 theorem combineLoop_append (op : Comb) (u : Nat) :
     ∀ (xs ys acc : List Ty) (i : Nat),
@@ -223,12 +236,14 @@ theorem combineLoop_mono (op : Comb) (u : Nat) :
       · exact ih _ _ _ h x hx'
 
 /-- once an operand has been processed, processing it again changes nothing -/
-theorem combineLoop_seen (op : Comb) (u : Nat) (t : Ty) (ht : t.parsed = true)
+theorem combineLoop_seen (op : Comb) (u : Nat) (t : Ty) (ht : t.stable = true)
     (ys acc acc2 : List Ty) (i k : Nat)
     (h : combineLoop op u (t :: ys) acc i = some acc2) (zs : List Ty) :
     combineLoop op u (t :: zs) acc2 k = combineLoop op u zs acc2 (k + 1) := by
-  simp only [combineLoop, parseArg_of_parsed ht] at h ⊢
-  by_cases hA : t.same .anyT = true
+  simp only [combineLoop, parseArg_stable ht (u + 1 + i), parseArg_stable ht (u + 1 + k)] at h ⊢
+  have hp := parseArg_parsed 0 t
+  generalize parseArg 0 t = t' at h hp ⊢
+  by_cases hA : t'.same .anyT = true
   · rw [if_pos hA] at h ⊢
     cases op with
     | any => cases h
@@ -236,29 +251,29 @@ theorem combineLoop_seen (op : Comb) (u : Nat) (t : Ty) (ht : t.parsed = true)
     | all => rfl
     | neg =>
       simp only at h ⊢
-      have hin : t ∈ acc2 := by
+      have hin : t' ∈ acc2 := by
         split at h
         · rename_i hd
           obtain ⟨x, hx, hs⟩ := List.any_eq_true.mp hd
           -- an operand identical to Any that is already present: Any itself
-          have : x = t := by
-            cases t <;> simp [Ty.same] at hA
+          have : x = t' := by
+            cases t' <;> simp [Ty.same] at hA
             cases x <;> simp [Ty.same] at hs
             rfl
           subst this
           exact combineLoop_mono _ _ _ _ _ _ h x hx
-        · exact combineLoop_mono _ _ _ _ _ _ h t (by simp)
-      have : acc2.any (fun x => x.same t) = true := List.any_eq_true.mpr ⟨t, hin, same_refl t⟩
+        · exact combineLoop_mono _ _ _ _ _ _ h t' (by simp)
+      have : acc2.any (fun x => x.same t') = true := List.any_eq_true.mpr ⟨t', hin, same_refl t' hp⟩
       rw [if_pos this]
   · rw [if_neg hA] at h ⊢
-    have hin : ∃ x ∈ acc2, x.same t = true := by
+    have hin : ∃ x ∈ acc2, x.same t' = true := by
       split at h
       · rename_i hd
         obtain ⟨x, hx, hs⟩ := List.any_eq_true.mp hd
         exact ⟨x, combineLoop_mono _ _ _ _ _ _ h x hx, hs⟩
-      · exact ⟨t, combineLoop_mono _ _ _ _ _ _ h t (by simp), same_refl t⟩
+      · exact ⟨t', combineLoop_mono _ _ _ _ _ _ h t' (by simp), same_refl t' hp⟩
     obtain ⟨x, hx, hs⟩ := hin
-    have : acc2.any (fun x => x.same t) = true := List.any_eq_true.mpr ⟨x, hx, hs⟩
+    have : acc2.any (fun x => x.same t') = true := List.any_eq_true.mpr ⟨x, hx, hs⟩
     rw [if_pos this]
 
 end Utv.C09
